@@ -1,0 +1,107 @@
+//go:build verif
+
+// Machine-checked contracts for package verifier, consumed by /verif/bin/walvc.
+// This file contains no code.
+
+package verifier
+
+
+//@ -- README/property C17: the checksum chains FNV-1a over Index, Term, Type
+//@ -- (8 little-endian bytes each), Data and Extensions of every entry, except
+//@ -- the bootstrap configuration entry (index 1) which hashes to 0.
+//@ func checksumLog
+//@   props C16 C17
+//@   requires log != nil
+//@   ensures[C17.bootstrap-exempt] log.Index == 1 && log.Type == raft.LogConfiguration ==> result == 0
+//@   ensures[C17.covers-fields] !(log.Index == 1 && log.Type == raft.LogConfiguration) ==>
+//@       result == ite(len(log.Extensions) > 0,
+//@                     fnvbytes(fnvbytes(fnvu64(fnvu64(fnvu64(sum, log.Index), log.Term), uint64(log.Type)), log.Data), log.Extensions),
+//@                     fnvbytes(fnvu64(fnvu64(fnvu64(sum, log.Index), log.Term), uint64(log.Type)), log.Data))
+
+//@ func encodeCheckpointMeta
+//@   props C17 C18
+//@   ensures[C17.cpmeta-layout] len(result) == 24 && LE64(result, 0) == ExtensionMagicPrefix && LE64(result, 8) == startIdx && LE64(result, 16) == sum
+//@   ensures fresh(result)
+
+//@ func decodeCheckpointMeta
+//@   props C17 C18
+//@   ensures[C18.foreign-ext-short] len(bs) < 24 ==> err != nil
+//@   ensures[C18.foreign-ext-magic] len(bs) >= 24 && LE64(bs, 0) != ExtensionMagicPrefix ==> err != nil
+//@   ensures[C17.cpmeta-roundtrip] len(bs) >= 24 && LE64(bs, 0) == ExtensionMagicPrefix ==> err == nil && startIdx == LE64(bs, 8) && sum == LE64(bs, 16)
+
+//@ -- function-type contract of IsCheckpointFn: no effect on the log it inspects
+//@ func IsCheckpointFn(log)
+//@   ensures true
+
+//@ func (*LogStore).updateVerifyState
+//@   props C16 C17 C18
+//@   requires s.checkpointFn != nil && log != nil
+//@   assigns log.Extensions
+//@   ensures[C18.ext-only-on-leader-cp] sameslice(log.Extensions, old(log.Extensions)) || (old(len(log.Extensions)) == 0 && r != nil && err == nil)
+//@   ensures[C16.no-report-for-plain-entry] err == nil && r == nil ==> newStartIdx == ite(startIdx == 0, log.Index, startIdx)
+//@   ensures[C16.leader-checkpoint] err == nil && r != nil && old(len(log.Extensions)) == 0 ==>
+//@        r.Range.Start == ite(startIdx == 0, log.Index, startIdx) && r.Range.End == log.Index && r.ExpectedSum == checksum && r.WrittenSum == checksum
+//@        && LE64(log.Extensions, 0) == ExtensionMagicPrefix && LE64(log.Extensions, 8) == r.Range.Start && LE64(log.Extensions, 16) == checksum
+//@   ensures[C16.written-sum-only-if-same-start] err == nil && r != nil && old(len(log.Extensions)) != 0 ==>
+//@        r.Range.Start == LE64(old(log.Extensions), 8) && r.ExpectedSum == LE64(old(log.Extensions), 16) && r.Range.End == log.Index
+//@        && r.WrittenSum == ite(LE64(old(log.Extensions), 8) == ite(startIdx == 0, log.Index, startIdx), checksum, 0)
+//@   ensures[C16.checkpoint-restarts-sum] err == nil && r != nil ==> newStartIdx == log.Index
+//@   ensures[C18.foreign-ext-refused] old(len(log.Extensions)) != 0 && (old(len(log.Extensions)) < 24 || LE64(old(log.Extensions), 0) != ExtensionMagicPrefix) ==> err != nil || r == nil
+
+//@ func (*LogStore).triggerVerify
+//@   props C18
+//@   requires s.metrics != nil
+//@   ensures[C18.never-blocks] !effect("blocking")
+//@   ensures[C18.one-report-or-drop] (traced("select:send:0") && nevent("call:metrics.Collector.IncrementCounter") == 0) || (traced("select:default") && nevent("call:metrics.Collector.IncrementCounter") == 1)
+
+//@ func (*LogStore).FirstIndex
+//@   props C18
+//@   requires s.s != nil
+//@   ensures[C18.transparent-first] nevent("call:raft.LogStore.FirstIndex") == 1 && result0 == g_under_val && result1 == g_under_err
+//@ func (*LogStore).LastIndex
+//@   props C18
+//@   requires s.s != nil
+//@   ensures[C18.transparent-last] nevent("call:raft.LogStore.LastIndex") == 1 && result0 == g_under_val && result1 == g_under_err
+//@ func (*LogStore).GetLog
+//@   props C18
+//@   requires s.s != nil
+//@   assigns log
+//@   ensures[C18.transparent-get] nevent("call:raft.LogStore.GetLog") == 1 && result == g_under_err
+
+//@ func (*LogStore).StoreLogs
+//@   props C16 C18
+//@   requires s.s != nil && s.metrics != nil
+//@   requires forall j int :: 0 <= j && j < len(logs) ==> logs[j] != nil
+//@   assigns *
+//@   ensures[C16.state-after-commit] result != nil ==> s.checksum == old(s.checksum) && s.sumStartIdx == old(s.sumStartIdx)
+//@   ensures[C18.transparent-store] len(logs) >= 1 && result == nil ==> nevent("call:raft.LogStore.StoreLogs") == 1
+//@   ensures[C18.store-error-passthrough] nevent("call:raft.LogStore.StoreLogs") == 1 ==> result == g_under_err
+//@   ensures[C18.never-blocks] !effect("blocking")
+//@   ensures[C18.no-report-before-store] result != nil ==> !traced("select:send:0")
+//@   loop 1 invariant s.checksum == old(s.checksum) && s.sumStartIdx == old(s.sumStartIdx)
+//@   loop 2 invariant true
+
+//@ func (*LogStore).DeleteRange
+//@   props C16 C18
+//@   requires s.s != nil
+//@   assigns s.checksum, s.sumStartIdx
+//@   ensures[C18.transparent-delete] nevent("call:raft.LogStore.DeleteRange") == 1 && result == g_under_err
+//@   ensures[C16.truncate-resets] result == nil && old(s.sumStartIdx) != 0 && max >= old(s.sumStartIdx) ==> s.sumStartIdx == 0 && s.checksum == 0
+
+//@ -- D17 (known finding): Data and Extensions are hashed back to back without a
+//@ -- delimiter or length, so the stream of (Data=[x,y], Ext=[z]) and of
+//@ -- (Data=[x], Ext=[y,z]) is the same byte sequence x,y,z: the two different
+//@ -- entries always get the same checksum (not a 64-bit collision).
+//@ lemma stream_boundary
+//@   props C17
+//@   vars h uint64, x uint8, y uint8, z uint8
+//@   prove[C17.stream-boundary] fnvstep(fnvstep(fnvstep(h, x), y), z) != fnvstep(fnvstep(fnvstep(h, x), y), z)
+
+//@ func (*LogStore).verify
+//@   props C16 C17
+//@   requires s.s != nil && s.metrics != nil && report != nil
+//@   assigns report.Err, report.ReadSum
+//@   ensures[C17.written-mismatch-reported] old(report.WrittenSum) != 0 && old(report.WrittenSum) != old(report.ExpectedSum) ==> report.Err != nil
+//@   ensures[C16.range-mismatch-no-read] old(report.WrittenSum) == 0 || old(report.WrittenSum) == old(report.ExpectedSum) ==> nevent("call:raft.LogStore.FirstIndex") == 1
+//@   ensures[C17.read-mismatch-reported] report.Err == nil ==> report.ReadSum == report.ExpectedSum
+//@   loop 1 invariant report.Err == nil && report.WrittenSum == old(report.WrittenSum) && report.ExpectedSum == old(report.ExpectedSum)
